@@ -571,4 +571,88 @@ def match_tolerance(repo: Repo) -> RuleRun:
 match_tolerance.rule_id = "C15.MATCH-TOLERANCE"
 
 
-RULES = [write_guard, edge_neighbours, boundary_rule, backport, no_stale_lazy_cache, irregular_valence, no_rounding, match_tolerance]
+def neighbour_binding(repo: Repo, prop: str = PROP, rule: str = "C15.NEIGHBOUR-BINDING") -> RuleRun:
+    """'leaves every boundary point ... where it was and moves each remaining interior point': which points are interior is decided
+    from the cells' neighbours, so every pair of cells that share a side must be offered to add_neighbour, in both directions -
+    whatever the local numbering of the shared side (two hexahedra meeting top to top share none of their corners 0 and 2).
+    Abstract run of GridBase._bind_cell_neighbours on small quad and hex assemblies in several relative orientations."""
+    r = RuleRun(prop, rule, floor=4, what="GridBase._bind_cell_neighbours offers every pair of cells that share a side to add_neighbour, in both directions, for any relative orientation of the two cells")
+    fn = repo.func("optimize.grid.GridBase._bind_cell_neighbours")
+    grid_cls = repo.cls("optimize.grid.GridBase")
+    scenarios = [
+        ("strip of three quads", 2, [[0, 1, 5, 4], [1, 2, 6, 5], [2, 3, 7, 6]]),
+        ("two quads, the second numbered from the far corner", 2, [[0, 1, 4, 3], [5, 4, 1, 2]]),
+        ("two hexahedra, bottom on top", 4, [[0, 1, 2, 3, 4, 5, 6, 7], [4, 5, 6, 7, 8, 9, 10, 11]]),
+        ("two hexahedra meeting top to top (one defined upside-down)", 4, [[0, 1, 2, 3, 4, 5, 6, 7], [11, 10, 9, 8, 7, 6, 5, 4]]),
+        ("two hexahedra side by side, the second turned", 4, [[0, 1, 2, 3, 4, 5, 6, 7], [5, 1, 2, 6, 13, 12, 14, 15]]),
+        ("2 x 2 block of hexahedra in one layer", 4, [[0, 1, 4, 3, 9, 10, 13, 12], [1, 2, 5, 4, 10, 11, 14, 13], [3, 4, 7, 6, 12, 13, 16, 15], [4, 5, 8, 7, 13, 14, 17, 16]]),
+    ]
+    for label, side_size, addressing in scenarios:
+        cells = [Obj(f"cell{i}", indexes=list(ix)) for i, ix in enumerate(addressing)]
+        grid = Obj("grid", cls=grid_cls)
+        grid.set("cells", cells)
+        offered = set()
+
+        def hook(ev, call: ast.Call, name, offered=offered):
+            if isinstance(call.func, ast.Attribute) and call.func.attr == "add_neighbour":
+                a, b = ev.eval(call.func.value), ev.eval(call.args[0])
+                offered.add((a._name, b._name))
+                return None
+            return NO_MATCH
+
+        try:
+            Evaluator(repo=repo, module=fn.module, call_hook=hook, max_steps=200000).call_funcinfo(fn, [grid])
+        except (Raised, NotEvaluable) as err:
+            raise AnalysisError(f"GridBase._bind_cell_neighbours not evaluable on symbolic cells: {err}") from err
+        want = {(a._name, b._name) for a in cells for b in cells if a is not b and len(set(a.get("indexes")) & set(b.get("indexes"))) == side_size}
+        missing = sorted(want - offered)
+        r.check(
+            not missing,
+            fn,
+            f"{label}: {len(want)} ordered pairs offered",
+            f"GridBase._bind_cell_neighbours, {label} (cells {addressing}): the pairs {missing[:4]} share a whole side but are never offered to add_neighbour: the shared side counts as boundary, "
+            "interior points on it are never smoothed (and the quality measure skips the neighbour terms there)",
+            fn.node,
+            key=f"bind:{label}",
+        )
+    return r
+
+
+neighbour_binding.rule_id = "C15.NEIGHBOUR-BINDING"
+
+
+def grid_ownership(repo: Repo, prop: str = PROP, rule: str = "C15.GRID-OWNERSHIP", modules=("optimize.smoother", "optimize.optimizer")) -> RuleRun:
+    """'... so that after enough iterations each free point equals that average' - on every call: a smoother / optimizer collects its
+    free junctions, clamps and links from ONE grid object when it is created. A method that replaces that grid afterwards
+    (self.grid = ...) leaves those collections pointing into the old one: the next smooth() averages frozen positions and the
+    iteration stalls. The grid attribute is assigned by constructors only."""
+    r = RuleRun(prop, rule, floor=2, what="the grid of a smoother / optimizer is assigned in constructors only (the collections built from its junctions stay valid)")
+    n = 0
+    for mname in modules:
+        mod = repo.module(mname)
+        for cls in sorted(repo.classes.values(), key=lambda c: c.qualname):
+            if cls.module is not mod:
+                continue
+            for fn in sorted(cls.methods.values(), key=lambda f_: f_.name):
+                for node in ast.walk(fn.node):
+                    targets = node.targets if isinstance(node, ast.Assign) else [node.target] if isinstance(node, (ast.AugAssign, ast.AnnAssign)) else []
+                    for t in targets:
+                        if isinstance(t, ast.Attribute) and t.attr == "grid" and attr_chain(t.value) == (fn.params[0] if fn.params else "self"):
+                            n += 1
+                            r.check(
+                                fn.name == "__init__",
+                                fn,
+                                f"{cls.name}.{fn.name} sets the grid (constructor)",
+                                f"{fn.qualname} replaces self.grid ('{ast.unparse(node)[:70]}') after construction: the junction lists, clamps and links collected from the first grid (self.inner, "
+                                "junction.clamp, junction.links) now belong to an object nobody updates - from the second smooth() / optimize() on the averages are taken from frozen positions",
+                                node,
+                                key=f"{cls.name}.{fn.name}",
+                            )
+    r.require(n >= 2, f"only {n} assignments of a grid attribute found in {modules}")
+    return r
+
+
+grid_ownership.rule_id = "C15.GRID-OWNERSHIP"
+
+
+RULES = [write_guard, edge_neighbours, boundary_rule, backport, no_stale_lazy_cache, irregular_valence, no_rounding, match_tolerance, neighbour_binding, grid_ownership]
